@@ -26,6 +26,10 @@ func C01(c *Ctx) int {
 	if err := c.TokenGameRound(fs, ps, RoundOpts{Label: "c01", MaxSteps: 10, MaxPerProg: 12}); err != nil {
 		c.Infraf("%v", err)
 	}
+	// a condition reads a variable that ANOTHER token wrote (ordered by a parallel join)
+	if err := c.TokenGameRound(fs, gen.OtherWriterShapes("and"), RoundOpts{Label: "other-writer", MaxSteps: 8}); err != nil {
+		c.Infraf("%v", err)
+	}
 	// level M: the generated programs made only of tasks, exclusive and parallel gateways (no loop:
 	// the flow bound) go through Engine.tla as well: every goroutine interleaving against the game
 	{
